@@ -17,7 +17,7 @@ SESSION_TXT = ("TLC checks the context state machine Riti.tla (both methods, ses
 CHECKS = {
     "C01": dict(category=MC, design_ref="DESIGN.md 5 C01",
                 technique="TLC model checking of Riti.tla (in-contract language as a state machine) + replay of every generated history through the real engine under catch_unwind",
-                text=SESSION_TXT + "; a panic or a call over the time budget on any in-contract event is a violation. Recorded random/dictionary-guided runs over all 111 key codes add depth.",
+                text=SESSION_TXT + "; a panic or a call over the time budget on any in-contract event is a violation. Recorded runs (impl -> spec, Trace_Session / Trace_Store with focus C01: dictionary-guided and random sessions over all 111 key codes, both methods, learning commits and restarts) add depth; a call that does not return within the watchdog budget is reported like a panic.",
                 note="bounded depth and class alphabets; replay contexts for the TLC histories run without the database; TLC, harness executor trusted"),
     "C02": dict(category=MC, design_ref="DESIGN.md 5 C02",
                 technique="TLC model checking of PropWellFormed on Riti.tla + replay with every returned suggestion fully read out (both accessors, every index)",
@@ -45,14 +45,14 @@ CHECKS = {
                 technique="TLC exhaustive enumeration of Layout.Expected over the complete key space + exhaustive comparison of the real engine against the emitted table",
                 text="the space 65536 codes x 11 modifier patterns x numpad x 2 layouts is finite and enumerated completely on both sides: TLC (2.9M states) "
                      "checks the statement's consequences on Layout.Expected and emits the table; the harness presses every point on the real engine and "
-                     "compares text, emptiness and session flag (exhaustive: true)",
+                     "compares text, emptiness and session flag (exhaustive: true); a hidden-state probe and recorded sessions validated by Trace_Session (focus C04) check that an inert event also leaves no trace in what follows",
                 note="key-name -> layout-entry naming convention (bin/gen.py) transcribed from riti.h names; two layout files; TLC JSON modules, harness executor trusted"),
     "C07": dict(category=MC, design_ref="DESIGN.md 5 C07",
                 technique="TLC trace validation of recorded candidate lists against Candidates.tla (PropOrderPhonetic) with facts from independent oracles",
                 text="every list the real engine returns for a corpus (all 1-char strings, 1/6 or all 2-char strings over the 94 typeable characters, auto-correct keys, base x suffix "
                      "words, wrapped words, emoticons, emoji names, random words; 4 option sets) is logged with oracle facts and TLC decides the order relation clause by clause: "
                      "auto-correct first, non-decreasing admissible distances (greedy over the set of justifications), transliteration after dictionary words, English last, no emoji "
-                     "before an exact dictionary hit, no duplicates",
+                     "before an exact dictionary hit, no duplicates. MC_Candidates model-checks the list assembly (sources, four-variant comparator, duplicate check, stable sort) against the same relation for every small multiset of source facts",
                 note="facts (dictionary+regex membership, Levenshtein, auto-correct, emoji tables, transliteration) are oracle-computed outside TLA+; quick tier samples the corpus"),
     "C08": dict(category=MC, design_ref="DESIGN.md 5 C08",
                 technique="TLC trace validation against Candidates.tla (PropJustified, PropSuffixComplete with Store.Join) with oracle facts incl. the lists offered for each base",
@@ -64,7 +64,7 @@ CHECKS = {
                 text="8 x 60 (quick) / 8 x 400 (thorough) recorded rounds of a commit-heavy driver (real words, META wrapping, smart quotes and English on/off, restarts over the same "
                      "directory, suffixed re-typing, file inspected after each commit) are validated by TLC: the learned map is spec state that evolves by the spec's own rules, every "
                      "shown list must preselect the learned (or correctly joined) candidate, committing the preselected index changes nothing, the file is always absent or valid. "
-                     "MC_Split checks the text-level round trip on all class strings. Known finding F11 is accepted explicitly by the trace spec.",
+                     "MC_Split checks the text-level round trip (KeyOf / StripCand / re-wrapping) on all class strings; MC_Store model-checks the store as a state machine (memory, file, restart, derived entries) against Remembered / SurvivesRestart, and StoreInd discharges the same invariant inductively with Apalache when it is available in time. Known finding F11 is accepted explicitly by the trace spec.",
                 note="recorder facts: okkhor transliteration of every prefix/suffix of the typed text; statement scope 'same text typed again'; echoed selection byte on punctuation keys accepted (F05)"),
     "C10": dict(category=MC, design_ref="DESIGN.md 5 C10",
                 technique="TLC model checking of the environment/fault model MC_Fault + replay of every fault scenario with exhaustive concretisation of torn files (every byte prefix)",
@@ -76,20 +76,19 @@ CHECKS = {
                 technique="TLC model checking of UpdatedEquivFresh on the memo/stamp model + paired replay: updated context vs context created fresh at the update point",
                 text="TLC enumerates typing / auto-correct-file edits / update-engine / typing histories over 4 (quick) or 7 (thorough) configurations, checks the invariant on "
                      "the model (it finds the stale-memo counterexample on the pinned transcript in 4 steps) and emits every maximal history; the harness replays each with "
-                     "explicit file mtimes against a brand-new context created with the new configuration over the same files; MC_Session histories add updates in the middle "
-                     "of arbitrary event sequences",
+                     "explicit file mtimes against a brand-new context created with the new configuration over the same files; a second instance performs two updates in a row (incl. suggestions switched off and on again); MC_Session histories add updates in the middle of arbitrary event sequences",
                 note="edits = content change with newer mtime; bounded number of edits/words; TLC, harness executor trusted"),
     "C12": dict(category=MC, design_ref="DESIGN.md 5 C12",
                 technique="TLC bounded model checking of FixedCompose (PropKeySet) + replay of every TLC behaviour through the real engine",
                 text="TLC enumerates all key/backspace histories to depth 3 (quick) / 4 (thorough) over a class alphabet x 16 helper settings, checks the "
                      "transcript against the normative priority chain, and every emitted history is replayed in the real engine with the pre-edit text "
-                     "compared after each event; bounded-exhaustive over the stated alphabet, not a proof",
+                     "compared after each event; a second instance goes one step deeper over a small alphabet, and recorded random fixed-layout sessions over all key codes are validated by Trace_Session (focus C12); bounded-exhaustive over the stated alphabets, not a proof",
                 note="class representatives; edge characters on which riti's tables and the Unicode chart differ are non-normative; TLC, harness executor, rustc trusted"),
     "C13": dict(category=MC, design_ref="DESIGN.md 5 C13",
                 technique="TLC bounded model checking of ImplReph against PropRephSet (syllable grammar) + replay of every reph-ending history through the real engine",
                 text="TLC enumerates all histories to depth 5 (quick) / 6 (thorough; 38M states) over the 12 values the reph scan distinguishes x 8 settings, "
                      "checks conservation for every reachable text and exact placement for every text matching the syllable grammar; every history ending in "
-                     "the reph key is replayed in the real engine and the pre-edit text compared after each event",
+                     "the reph key is replayed in the real engine and the pre-edit text compared after each event; the ranges include the old vowel-sign order (sign waiting / sign placed before the reph arrives)",
                 note="placement clause only for grammar-matching texts (statement: 'orthographically well-formed'); bounded depth; TLC, harness executor, rustc trusted"),
     "C14": dict(category=MC, design_ref="DESIGN.md 5 C14",
                 technique="TLC product-machine model checking (typewriter order/option on vs Unicode order/option off) + paired replay of every generated word in two real contexts",
@@ -107,7 +106,7 @@ CHECKS = {
                 technique="TLC trace validation (PropAnsi / FPropAnsi / Enc) of recorded lists in both methods + data-exhaustive encoding pass over dictionary.json",
                 text="every recorded phonetic and fixed list (C07/C15 corpora, ANSI on and off) is checked for the gate (no emoji / emoticon / raw English in ANSI mode) and for the pre-edit "
                      "relation (Bijoy encoding without Bengali code points / identity); every (4th) dictionary word, candidates of auto-correct key + suffix words and every layout value "
-                     "go through the real pre-edit accessor in ANSI mode. Known finding F18 (dependency panics on U+09C4) is accepted explicitly for exactly those code points",
+                     "go through the real pre-edit accessor in ANSI mode; MC_Candidates checks AnsiGate on the assembly model. Known finding F18 (dependency panics on U+09C4) is accepted explicitly for exactly those code points",
                 note="the encoding itself is poriborton's public function (oracle named by the statement); emoji-ness from the emojicon tables"),
     "C17": dict(category=MC, design_ref="DESIGN.md 5 C17",
                 technique="TLC enumeration of class strings with Split.tla deciding the wrapping + paired replay (option on/off) with the spec's curling relation per candidate",
@@ -119,11 +118,11 @@ CHECKS = {
                 technique="TLC trace validation (PropEmoji / FPropEmoji) over the complete emojicon tables, typed in the method(s) that can type them",
                 text="all 330 emoticons (both methods), 1/4 or all English emoji names (phonetic) and all 1007 Bengali names (fixed) are typed, bare and wrapped; TLC requires the emoticon's "
                      "emoji and literal text, and the name's emoji as a subsequence in table order wrapped like the word. Known finding F16 (more than eight emoji do not fit the nine-candidate "
-                     "list) is accepted explicitly; F17 (unstable sort) was fixed",
+                     "list) is accepted explicitly; F17 (unstable sort) was fixed; MC_Candidates checks EmojiTableOrder on the assembly model",
                 note="tables via emojicon's public API (feature internal); non-emoji order is covered by C07/C15"),
     "C19": dict(category="exploration", design_ref="DESIGN.md 5 C19",
                 technique="TLC enumeration/simulation of FFI.tla call orders + execution through the exported C symbols with snapshot comparison, re-run under valgrind memcheck",
-                text="the call-order quantifier comes from the TLA+ model of the 33 functions over live/freed handles: all in-contract orders to depth 6/7 and random 14-call life "
+                text="the call-order quantifier comes from the TLA+ model of the 33 functions over live/freed handles (phonetic and fixed-layout configurations, setter calls): all in-contract orders to depth 6/7 and random 14-call life "
                      "cycles; each is executed through the extern C symbols with string validity / equality / snapshot-independence checks, and a sample of several hundred (thousand) "
                      "sequences is re-executed under valgrind memcheck, which decides 'no invalid access, no leak'. Claimed as exploration, not model checking: the memory verdict "
                      "is outside TLA+",
